@@ -110,6 +110,8 @@ def run(rep):
 
 def replay(rep, path):
     lines = [l for l in open(path).read().split('\n') if l.strip()]
+    # the scenario generator depends on the tier (-big): the replay header says which one produced the file
+    big = any(l.startswith('# property=') and 'tier=thorough' in l for l in lines)
     common.lake_build(['npdriver'])
     if any(l.startswith('scn ') for l in lines):
         rbin, _ = common.build_harness('streamh')
@@ -118,7 +120,7 @@ def replay(rep, path):
             if not l.startswith('scn '): continue
             seed = int(re.search(r'seed=(\d+)', l).group(1)); sid = int(re.search(r' id=(\d+)', l).group(1))
             for _ in range(5):
-                l2, _, _ = real_run(rbin, seed, sid + 1, 1, 'total=3355' in l or 'total=419' in l, only=sid)
+                l2, _, _ = real_run(rbin, seed, sid + 1, 1, big, only=sid)
                 print('REPLAY:', re.sub(r'ops=map\[[^]]*\]', '', l2[0]) if l2 else 'no output')
                 if l2 and ':: FAIL' in l2[0]: n += 1
         rep.cov['evaluations'] = len(lines)
